@@ -707,6 +707,12 @@ func GetCallable(mroPaths []string, name string, compile bool) (syntax.Callable,
 					// skip, private file
 				} else if data, err := os.ReadFile(path.Join(mroPath, fpath)); err == nil {
 					if ast, err := parse(data, fpath); err == nil {
+						if !compile {
+							// Initialize the type table as far as possible,
+							// like GetCallableFrom does: without it not
+							// even the builtin types can be looked up.
+							_ = ast.CompileTypes()
+						}
 						for _, callable := range ast.Callables.List {
 							if callable.GetId() == name {
 								return callable, &ast.TypeTable, nil
